@@ -52,6 +52,8 @@ SCHEMA = {
     "gglwe_to_ggsw_key_compressed": [("rep", GGC)],
     "blind_rotation_key": [("dist",), ("rep", GG)],
     "blind_rotation_key_compressed": [("dist",), ("rep", GGC)],
+    "circuit_bootstrapping_key": [("dist",), ("rep", GG), ("rep", [("key64",), ("u64",)] + GG), ("rep", GG)],
+    "bdd_key": [("dist",), ("rep", GG), ("rep", [("key64",), ("u64",)] + GG), ("rep", GG), ("opt", [("u32",), ("u32",)] + GG), ("u32",), ("u32",)] + GG,
 }
 HAL = ("vec", "scalar", "mat")
 LEAF_HDR = {"v": 5, "s": 3, "m": 6}          # u64 header words incl. len
@@ -80,7 +82,7 @@ def parse(ty, data):
     def walk(items):
         for it in items:
             k = it[0]
-            if k in ("u32", "u64"):
+            if k in ("u32", "u64", "key64"):
                 w = 4 if k == "u32" else 8
                 st["hdr"].append((pos[0], w, "field"))
                 st["F"].append(le(take(w)))
@@ -109,6 +111,14 @@ def parse(ty, data):
                 ln = ws[-1]
                 st["pay"].append((pos[0], ln))
                 st["L"].append((it[1], ws[:-1], ln, take(ln), base))
+            elif k == "opt":
+                st["hdr"].append((pos[0], 1, "opttag"))
+                tg = le(take(1))
+                st["F"].append(tg)
+                if tg == 1:
+                    walk(it[1])
+                elif tg != 0:
+                    raise ParseError("opttag")
             elif k == "rep":
                 st["hdr"].append((pos[0], 8, "count"))
                 c = le(take(8))
@@ -192,6 +202,9 @@ def grids():
     brk = [(4, 2, 8, 24, 2, 1), (4, 3, 8, 16, 1, 1), (2, 2, 8, 24, 1, 2), (8, 2, 8, 24, 2, 1)]
     g["blind_rotation_key"] = brk
     g["blind_rotation_key_compressed"] = brk
+    # n_glwe, n_lwe, base2k, k, dnum, rank, dsize, k_atk [, has_ks_glwe]
+    g["circuit_bootstrapping_key"] = [(4, 2, 8, 16, 1, 1, 1, 16), (8, 2, 8, 24, 2, 1, 1, 24), (2, 1, 8, 16, 1, 1, 1, 16)]
+    g["bdd_key"] = [(4, 2, 8, 16, 1, 1, 1, 16, 1), (4, 2, 8, 16, 1, 1, 1, 16, 0), (8, 1, 8, 24, 2, 1, 1, 24, 1)]
     return g
 
 
@@ -213,7 +226,7 @@ def mutations(ty, stream, rng, quick):
     for c, b in p["S"]:
         pass
     # truncations
-    step = 8 if quick else 1
+    step = 8 if (quick or len(stream) > 4096) else 1          # thorough: every truncation point of objects up to 4 KiB
     n = len(stream)
     pts = sorted(set([x for x in inhdr if x <= n] + list(range(0, n, step)) + [n - 1, n]))
     # quick tier: thin the payload truncations of long streams
@@ -309,8 +322,14 @@ def randomize(ty, p, rng):
                 schema_fields.append("u32")
             elif k == "u64":
                 schema_fields.append("u64")
+            elif k == "key64":
+                schema_fields.append("count")
             elif k == "dist":
                 schema_fields.extend(["tag", "pl"])
+            elif k == "opt":
+                schema_fields.append("count")
+                if reps.pop(0) == 1:
+                    walk(itx[1], reps)
             elif k == "rep":
                 schema_fields.append("count")
                 cnt = reps.pop(0)
@@ -324,10 +343,16 @@ def randomize(ty, p, rng):
         nonlocal pos
         for itx in items:
             k = itx[0]
-            if k in ("u32", "u64"):
+            if k in ("u32", "u64", "key64"):
                 pos += 1
             elif k == "dist":
                 pos += 2
+            elif k == "opt":
+                c = p["F"][pos]
+                counts.append(c)
+                pos += 1
+                if c == 1:
+                    first(itx[1])
             elif k == "rep":
                 c = p["F"][pos]
                 counts.append(c)
